@@ -598,16 +598,19 @@ impl<'a> P<'a> {
     fn parse_expr_statement(&mut self) -> R<Stat> {
         // contextual keywords of Luau
         if self.mode == Mode::Luau {
-            if self.is_kw("type") && self.peek_is_name(1) {
+            if self.is_kw("type") {
                 // `type X = ...` / `type function X`
                 if matches!(self.peek(1), Tok::Name(n) if n == "function") && self.peek_is_name(2) {
                     return self.parse_type_function(false);
                 }
-                if self.peek_is_sym(2, "=") || self.peek_is_sym(2, "<") {
+                if self.peek_is_name(1) && (self.peek_is_sym(2, "=") || self.peek_is_sym(2, "<")) {
                     return self.parse_type_decl(false);
                 }
             }
-            if self.is_kw("export") && matches!(self.peek(1), Tok::Name(n) if n == "type") && self.peek_is_name(2) {
+            if self.is_kw("export")
+                && matches!(self.peek(1), Tok::Name(n) if n == "type")
+                && (self.peek_is_name(2) || matches!(self.peek(2), Tok::Name(n) if n == "function"))
+            {
                 let start = self.pos();
                 self.advance();
                 if matches!(self.peek(1), Tok::Name(n) if n == "function") {
